@@ -112,7 +112,7 @@ func verifWriteReady(op *FDOperator, vs [][]byte, ivs []syscall.Iovec) {
 //  3: scenario 0 plus a local Close at any moment
 //
 //verif:po
-//verif:bounds 1-2 Flush calls of k in [1, 1<<20] bytes, socket space symbolic, <= 2 write-ready dispatches, 1 peer drain, timer may expire twice; output buffer summarised on its length; state revisits <= 3
+//verif:bounds 1-2 Flush calls of k in [1, 1<<20] bytes (scenario 2: k in [1,4], space <= 4, drain <= 8), socket space symbolic, <= 2 write-ready dispatches, 1 peer drain, timer may expire twice; output buffer summarised on its length; state revisits <= 3
 //verif:param 0 3
 //verif:loop 40
 //verif:poloop 3
@@ -122,9 +122,14 @@ func verifHarness_C08_flush(sc int) {
 	c := verifNewConn(verifConnCfg{closeCBs: 1})
 	verifC08Conn = c
 	verifS = &verifSock{otherFlusher: sc == 1}
+	// scenario 2 (two Flush calls, timer) is only decidable in time with small byte counts
+	lim := 1 << 20
+	if sc == 2 {
+		lim = 4
+	}
 	sp := verifNondetInt64("space0")
 	verifAssume(sp >= 0)
-	verifAssume(sp <= 1<<20)
+	verifAssume(sp <= int64(lim))
 	verifS.space = sp
 	op := c.operator
 	vs := make([][]byte, 1)
@@ -137,10 +142,10 @@ func verifHarness_C08_flush(sc int) {
 	}
 	k1 := verifNondetInt("k1")
 	verifAssume(k1 >= 1)
-	verifAssume(k1 <= 1<<20)
+	verifAssume(k1 <= lim)
 	k2 := verifNondetInt("k2")
 	verifAssume(k2 >= 1)
-	verifAssume(k2 <= 1<<20)
+	verifAssume(k2 <= lim)
 	verifThread("flusher", func() {
 		ok := verifFlushCall(c, k1, vt, "C08/flush1")
 		// (after a reported write error the stream guarantee ends: a second Flush is only
@@ -158,7 +163,7 @@ func verifHarness_C08_flush(sc int) {
 	verifThread("peer", func() {
 		d := verifNondetInt64("drain")
 		verifAssume(d >= 1)
-		verifAssume(d <= 1<<21)
+		verifAssume(d <= 2*int64(lim))
 		atomic.AddInt64(&verifS.space, d)
 	})
 	switch sc {
